@@ -213,6 +213,8 @@ pub enum RecvOutcome {
     Closed,
     Panic(String),
     InFlight,
+    /// C10 silent peer: the receiver was (legitimately) waiting for more input when the run ended
+    Waiting,
 }
 
 #[derive(Clone, Debug, Serialize)]
@@ -337,6 +339,13 @@ pub struct World {
     /// absolute delivered offset (two-chunk compositions)
     pub split_w: Option<usize>,
     pub split_r: Option<usize>,
+    /// C10: the hostile peer stays connected and silent after its last byte.  A receiver that
+    /// then waits for more input is fine (it is ended quietly) – unless it waits with a
+    /// zero-length read buffer, i.e. with no room left: that can never complete and must have
+    /// been reported as buffer exhaustion.
+    pub silent_peer: bool,
+    /// length of the buffer offered by the read call on which the reader is parked (genuine Pending)
+    pub reader_parked_cap: Option<usize>,
     pub abort: bool,
     pub prop: &'static str,
     pub forced: Option<Forced>,
@@ -396,6 +405,8 @@ impl World {
             align: 1,
             split_w: None,
             split_r: None,
+            silent_peer: false,
+            reader_parked_cap: None,
             abort: false,
             prop: "",
             forced: None,
@@ -949,7 +960,7 @@ impl World {
             RecvOutcome::ReadErr(_) => (Out::ReadErr, 0),
             RecvOutcome::Closed => (Out::Closed, 0),
             RecvOutcome::Panic(_) => (Out::Panic, 0),
-            RecvOutcome::InFlight => (Out::None, 0),
+            RecvOutcome::InFlight | RecvOutcome::Waiting => (Out::None, 0),
         };
         match out {
             Out::Msg => self.probe(P::msgs_delivered),
